@@ -496,6 +496,62 @@ func c03R4(p *core.Prog, r *core.Report, rule string) {
 			okSkip, skipPos = false, ret.Pos()
 		}
 	}
+	// after the wake-up the waiter reports what the first copier stored — its failure included
+	isErrField := func(v ssa.Value) bool {
+		u, ok := v.(*ssa.UnOp)
+		if !ok || u.Op != token.MUL {
+			return false
+		}
+		fa, ok := u.X.(*ssa.FieldAddr)
+		return ok && isErr(fa.Type().(*types.Pointer).Elem())
+	}
+	var fromErrField func(v ssa.Value, d int) bool
+	fromErrField = func(v ssa.Value, d int) bool {
+		if v == nil || d > 5 {
+			return false
+		}
+		if isErrField(v) {
+			return true
+		}
+		switch x := v.(type) {
+		case *ssa.Call:
+			for _, a := range x.Call.Args {
+				for _, e := range variadicElems(a) {
+					if fromErrField(underIface(e), d+1) {
+						return true
+					}
+				}
+			}
+		case *ssa.Phi:
+			for _, e := range x.Edges {
+				if !core.IsNilConst(e) && !fromErrField(e, d+1) {
+					return false
+				}
+			}
+			return len(x.Edges) > 0
+		case *ssa.MakeInterface:
+			return fromErrField(x.X, d+1)
+		}
+		return false
+	}
+	okOwner, ownerPos := true, fn.Pos()
+	for _, ret := range core.Returns(fn) {
+		if len(ret.Results) < 2 || !afterFieldChanRecv(ret) {
+			continue
+		}
+		ev := core.ReturnOperand(ret, 1)
+		ok := fromErrField(ev, 0)
+		if !ok && core.IsNilConst(ev) {
+			ok = anyGuard(ret.Block(), func(c ssa.Value, pol bool) bool {
+				x, neq, isNil := errCmpNil(c)
+				return isNil && neq != pol && isErrField(x)
+			})
+		}
+		if !ok {
+			okOwner, ownerPos = false, ret.Pos()
+		}
+	}
+	r.Check(okOwner, rule, name, "the waiter reports the first copier's result", p.Pos(ownerPos), "a return behind the receive from the entry's done channel hands back something other than the error the first copier stored (or a wrap of it): a waiter that is told nil after the shared copy failed lets its own image be published without that content")
 	r.Check(okSkip, rule, name, "in-flight content is waited for", p.Pos(skipPos), "every return that hands back neither a callback nor a fresh error lies behind a receive from the entry's done channel; answering 'already copied' while the first copier is still running lets the caller publish a manifest (and its tag) before the shared blob exists at the target")
 }
 
